@@ -101,6 +101,19 @@ CLAIMED['C14'] = dict(
          "Outside: directory walk and home fallbacks, TOML/getopts parsing, print-config round trip.",
     design='§5 C14')
 
+CLAIMED['C18'] = dict(
+    category='other',
+    text="Two kernels of cargo-fmt decided on the real MIR of src/cargo-fmt/main.rs: (1) run_rustfmt's aggregation over 0..3 (thorough 4) rustfmt child "
+         "processes with symbolic (success, Option<code>) per child and symbolic io failures of spawn/wait: Ok(code) is returned only after every group "
+         "ran, and code != 0 exactly when some child failed (including children killed by a signal); (2) Target's PartialEq/PartialOrd/Ord: two targets "
+         "are the same element of the BTreeSet exactly when their paths are equal, whatever their kind and edition - which is what makes each file be "
+         "passed once. Target discovery and the argument vectors are outside this technique.",
+    note="Thin (level other). Trusted: MIR printer, mirsym under-constrained mode, std contract success() <=> code() == Some(0), uninterpreted Command building, "
+         "PathBuf comparison as equality / total order on uninterpreted values, edition grouping supplied by the harness. Replay: the real cargo-fmt in a "
+         "scratch three-edition workspace with a scripted $RUSTFMT stand-in (exit codes 1/3/101, SIGKILL) and a file shared by two editions.",
+    design='§5 C18',
+    technique="bounded symbolic execution of the cargo-fmt binary's MIR (mirsym) with symbolic child statuses; obligations decided by cvc5/z3; replay with a stand-in rustfmt")
+
 NA = {
     'C01': "token-sequence equivalence over all programs requires symbolic execution of rustc_parse and ~30 kLoC of AST rewriters; no encodable kernel carries it",
     'C02': "fixed-point of the full formatting pipeline (parser + all rewriters on both sides); not encodable, and idempotence of kernels does not imply it",
